@@ -24,7 +24,10 @@ def gen_seq(rng, n, style):
             sz = rng.choice(SIZES) if rng.random() < 0.3 else rng.choice([1, 2, 7, 8, 9, 20, 40, 100])
             if rng.random() < 0.02:
                 sz = 0
-            ops.append("I %d %d" % (sz, seed)); nslots += 1
+            if rng.random() < 0.3:
+                ops.append("J %d %d %d" % (tgt(), sz, seed)); nslots += 1     # insert at the logged slot (redo/undo)
+            else:
+                ops.append("I %d %d" % (sz, seed)); nslots += 1
         elif r < 0.55:
             sz = rng.choice([1, 2, 7, 8, 9, 20, 40, 100, 300, 1000, 3000])
             ops.append("U %d %d %d %d" % (tgt(), sz, seed, 1 if rng.random() < 0.5 else 0))
@@ -45,7 +48,7 @@ def gen_seq(rng, n, style):
 def gen_cases(rng, tier):
     cases = []
     # exhaustive short sequences over 3 row sizes
-    small_ops = ["I 3 1", "I 8 2", "I 20 3", "U 0 3 4 0", "U 0 20 5 0", "U 1 8 6 1", "U 1 30 7 0",
+    small_ops = ["I 3 1", "I 8 2", "I 20 3", "J 1 5 9", "J 0 5 8", "U 0 3 4 0", "U 0 20 5 0", "U 1 8 6 1", "U 1 30 7 0",
                  "M 0", "M 1", "A 0", "A 1", "R 0", "R 1", "G 0", "G 1"]
     depth = 3 if tier == "quick" else 4
     for seq in itertools.product(small_ops, repeat=depth):
@@ -93,7 +96,12 @@ def oracle(case, out):
         used = sum(s_ for _, s_ in regs)
         # functional behaviour against the shadow map
         if o == "ins":
-            shadow[int(arg)] = (f[1], f[2], False)
+            if f[0] == "J":
+                if int(arg) in shadow and shadow[int(arg)]:
+                    return "op %d (%s): insert at a logged slot overwrote a stored row" % (i, op)
+                shadow[int(arg)] = (f[2], f[3], False)
+            else:
+                shadow[int(arg)] = (f[1], f[2], False)
         elif o == "upd":
             shadow[int(f[1])] = (f[2], f[3], False)
         elif o == "mark":
@@ -140,7 +148,7 @@ def shrink(case, fails):
 
 
 def run(res, replay=None):
-    res.rule = ("all sequences of length 3 (quick) / 4 (thorough) over 15 operations on 3 row sizes exhaustively, plus seeded random sequences of 5-120 operations "
+    res.rule = ("all sequences of length 3 (quick) / 4 (thorough) over 17 operations on 3 row sizes exhaustively, plus seeded random sequences of 5-120 operations "
                 "(row sizes 1..4065 incl. exactly-fits and one-too-large; targets biased to existing, just-freed and out-of-range slots; page driven full); after every operation "
                 "outcome, free-space pointer, slot array and a digest of the tuple-area bytes are compared, all slots read back at the end; "
                 "non-trivial = distinct sequence with a shifting update or an applied delete while another row is stored")
